@@ -2,9 +2,9 @@ package core
 
 import (
 	"fmt"
-	"os"
 	"go/token"
 	"go/types"
+	"os"
 	"sort"
 	"strings"
 
@@ -93,12 +93,12 @@ type OwnEvent struct {
 
 // Own is the analysis driver.
 type Own struct {
-	P       *Prog
-	Spec    OwnSpec
-	sums    map[string][]OwnOutcome
-	inProg  map[string]bool
-	Events  []OwnEvent
-	seenEv  map[string]bool
+	P      *Prog
+	Spec   OwnSpec
+	sums   map[string][]OwnOutcome
+	inProg map[string]bool
+	Events []OwnEvent
+	seenEv map[string]bool
 	// SiteState records the state bits of a resource where it is passed to a callee / go statement.
 	SiteState map[ssa.Instruction]uint8
 	// EntryFlags: extra state bits (StAlias) for parameter #idx of a function.
